@@ -5,6 +5,7 @@ import Dmn.Lemmas.DrgFuel
 import Dmn.Lemmas.DrgSpec
 import Dmn.Lemmas.DrgService
 import Dmn.Lemmas.DrgContext
+import Dmn.Lemmas.DrgBuild
 import Dmn.Lemmas.EvalM
 
 /-!
@@ -17,10 +18,11 @@ Lemmas: `Dmn/Lemmas/Drg.lean` (non-interference invariant), `DrgFuel.lean` (rank
 `DrgSpec.lean` (model = specification), `DrgContext.lean` (lookups in the evaluation context),
 `DrgService.lean` (output loop).
 
-Theorems: `irrelevant_inputs` (+ per kind) · `eval_invocable_spec_partial` (+ per kind),
-`decision_context_spec`, `knowledge_model_bound`, `eval_decision_spec_counterexample` (F14),
-`bkm_requires_service_counterexample` (F28) · `service_outputs` · `graph_bottom_never_reached`,
-`acyclic_fuel_suffices_ranked`, `acyclic_fuel_suffices`.
+Theorems: `irrelevant_inputs` (+ per kind) · `eval_invocable_spec` (+ per kind; full strength
+since the repairs of F14 and F28), `decision_context_spec`, `knowledge_model_bound` ·
+`service_outputs` · `graph_bottom_never_reached`, `acyclic_fuel_suffices_ranked`,
+`acyclic_fuel_suffices`, `acyclic_complete` · `built_graph_ranked`, `built_graph_fuel_suffices`,
+`check_requirements_complete` (`check_requirements` of `ModelEvaluator::new`).
 -/
 
 namespace Dmn.Drg
@@ -35,7 +37,7 @@ theorem irrelevant_inputs_decision (base : Env) (g : Drg) (ff gf : Nat) (id : St
     evalDecision base g ff gf id c1 = evalDecision base g ff gf id c2 := by
   unfold evalDecision
   rw [level_graph]
-  rw [(sound_graphAt g _ gf).dec id c1 c2 [] h]
+  rw [(sound_graphAt g _ gf).dec id c1 c2 [] [] h]
 
 /-- The same for a decision service invoked by name. -/
 theorem irrelevant_inputs_service (base : Env) (g : Drg) (ff gf : Nat) (id : String) (c1 c2 : Ctx)
@@ -114,8 +116,8 @@ theorem irrelevant_inputs (base : Env) (g : Drg) (ff gf : Nat) (name : String) (
             simpa using this
           · cases hi
 
-/-- Non-vacuity: `B` requires `A` and the input `x`; `Z` is outside the closure, `A` (the
-variable of the required decision) is inside. -/
+/-- Non-vacuity: `B` requires `A` and the input `x`; the closure is `x` alone — `Z` and `A` (the
+variable of the required decision, which input data no longer replace) are outside. -/
 example :
     let g : Drg := {
       inputs := [{ id := "_x", name := "x", ty := .simple .number }],
@@ -125,15 +127,16 @@ example :
         { id := "_b", name := "B", var := "B", ty := .untyped, reqInputs := ["_x"], reqDecisions := ["_a"],
           reqKnowledge := [], logic := .add (.name "A") (.name "x") }],
       bkms := [], services := [] }
-    closureNames g 2 "B" = ["A", "x"] ∧ g.bkmVarsConsistent = true ∧
-      AgreeOn (closureNames g 2 "B") [("Z", .null), ("x", .bool true)] [("x", .bool true)] := by
+    closureNames g 2 "B" = ["x"] ∧ g.bkmVarsConsistent = true ∧
+      AgreeOn (closureNames g 2 "B") [("A", .null), ("Z", .null), ("x", .bool true)] [("x", .bool true)] := by
   intro g
-  have hc : closureNames g 2 "B" = ["A", "x"] := by decide
+  have hc : closureNames g 2 "B" = ["x"] := by decide
   refine ⟨hc, by decide, ?_⟩
   intro k hk
   rw [hc] at hk
-  have : k = "A" ∨ k = "x" := by simpa using hk
-  rcases this with rfl | rfl <;> rfl
+  have : k = "x" := by simpa using hk
+  subst this
+  rfl
 
 /-! ## The value of a decision is its logic evaluated over its requirement graph
 
@@ -141,41 +144,33 @@ example :
 evaluated in the context that binds every required input to the supplied, type-checked value,
 every required decision's variable to that decision's own value (recursively), every required
 knowledge model / decision service to its function value, and the result is coerced to the
-output type (`decision_context_spec` below spells the context out).  The code departs from it
-in two places (findings F14, F28); outside them model and specification coincide, for every
-graph (acyclic or not) and every fuel.
-
--- FULL STATEMENT (not provable of the current code, see findings F14 and F28)
---   theorem eval_decision_spec (base g ff gf name input) :
---     evaluateInvocable base g ff gf name input = Spec.evaluateInvocable base g ff gf name input
+output type (`decision_context_spec` below spells the context out).  Since the repairs of
+findings F14 (input data replaced required decisions) and F28 (a decision service required by a
+knowledge model was evaluated, not bound) the code does exactly this: model and specification
+coincide for every graph (acyclic or not), every input context and every fuel.
 -/
 
-/-- The registries of the model and of the specification give the same closures. -/
-theorem eval_decision_spec_partial (base : Env) (g : Drg) (ff gf : Nat) (id : String) (input : Ctx)
-    (hB : g.noBkmRequiresService = true) (hN : g.inputNamesSeparate = true)
-    (hI : g.inputsDisjointFromDecisionNames input = true) :
+/-- The value of a decision invoked by name is the one the specification prescribes. -/
+theorem eval_decision_spec (base : Env) (g : Drg) (ff gf : Nat) (id : String) (input : Ctx) :
     evalDecision base g ff gf id input = Spec.evalDecision base g ff gf id input := by
   unfold evalDecision Spec.evalDecision
-  rw [level_graph' base g gf ff, spec_level_graph base g gf ff, ← level_env_rel base g hB hN gf ff]
-  rw [(rel_graphAt g hB hN (level base g gf ff).env gf).dec id [] input [] (compatible_of_disjoint hI)]
+  rw [level_graph' base g gf ff, spec_level_graph base g gf ff, ← level_env_rel base g gf ff]
+  rw [(rel_graphAt g (level base g gf ff).env gf).dec id [] input []]
 
-/-- A decision service invoked by name: its input decisions are parameters, so entries named
-like them are legitimate; no hypothesis on the input data. -/
-theorem eval_service_spec_partial (base : Env) (g : Drg) (ff gf : Nat) (id : String) (input : Ctx)
-    (hB : g.noBkmRequiresService = true) (hN : g.inputNamesSeparate = true) :
+/-- A decision service invoked by name. -/
+theorem eval_service_spec (base : Env) (g : Drg) (ff gf : Nat) (id : String) (input : Ctx) :
     evalService base g ff gf id input = Spec.evalService base g ff gf id input := by
   unfold evalService Spec.evalService
-  rw [level_graph' base g gf ff, spec_level_graph base g gf ff, ← level_env_rel base g hB hN gf ff]
-  rw [(rel_graphAt g hB hN (level base g gf ff).env gf).svc id input []]
+  rw [level_graph' base g gf ff, spec_level_graph base g gf ff, ← level_env_rel base g gf ff]
+  rw [(rel_graphAt g (level base g gf ff).env gf).svc id input []]
 
 /-- A knowledge model invoked by name. -/
-theorem eval_bkm_spec_partial (base : Env) (g : Drg) (ff gf : Nat) (id var : String) (input : Ctx)
-    (hB : g.noBkmRequiresService = true) (hN : g.inputNamesSeparate = true) :
+theorem eval_bkm_spec (base : Env) (g : Drg) (ff gf : Nat) (id var : String) (input : Ctx) :
     evalBkm base g ff gf id var input = Spec.evalBkm base g ff gf id var input := by
   unfold evalBkm evalBkmInvocable Spec.evalBkm
   simp only []
-  rw [level_graph' base g gf ff, spec_level_graph base g gf ff, ← level_env_rel base g hB hN gf ff]
-  rw [(rel_graphAt g hB hN (level base g gf ff).env gf).bkm id input []]
+  rw [level_graph' base g gf ff, spec_level_graph base g gf ff, ← level_env_rel base g gf ff]
+  rw [(rel_graphAt g (level base g gf ff).env gf).bkm id input []]
   cases (Spec.graphAt g (level base g gf ff).env Spec.divergeGraph gf).bkm id [] with
   | panic p => rfl
   | diverge => rfl
@@ -186,21 +181,18 @@ theorem eval_bkm_spec_partial (base : Env) (g : Drg) (ff gf : Nat) (id var : Str
     | some v =>
       cases v <;> rfl
 
-/-- `evaluate_invocable` equals the specification when no knowledge model requires a decision
-service, no input data element is named like a variable, and no entry of the input data is
-named like the variable of a decision, knowledge model or decision service. -/
-theorem eval_invocable_spec_partial (base : Env) (g : Drg) (ff gf : Nat) (name : String) (input : Ctx)
-    (hB : g.noBkmRequiresService = true) (hN : g.inputNamesSeparate = true)
-    (hI : g.inputsDisjointFromDecisionNames input = true) :
+/-- **`evaluate_invocable` is the specification**, at full strength: for every graph, name,
+input context and fuel. -/
+theorem eval_invocable_spec (base : Env) (g : Drg) (ff gf : Nat) (name : String) (input : Ctx) :
     evaluateInvocable base g ff gf name input = Spec.evaluateInvocable base g ff gf name input := by
   unfold evaluateInvocable Spec.evaluateInvocable
   cases g.invocable name with
   | none => rfl
   | some i =>
     cases i with
-    | decision id => exact eval_decision_spec_partial base g ff gf id input hB hN hI
-    | service id => exact eval_service_spec_partial base g ff gf id input hB hN
-    | bkm id var => exact eval_bkm_spec_partial base g ff gf id var input hB hN
+    | decision id => exact eval_decision_spec base g ff gf id input
+    | service id => exact eval_service_spec base g ff gf id input
+    | bkm id var => exact eval_bkm_spec base g ff gf id var input
 
 /-- **What the specification's decision closure evaluates** (`eval_decision_spec`, spelled out).
 For a decision `d` invoked at top level (no enclosing decision service), over registries one
@@ -235,7 +227,7 @@ theorem decision_context_spec (g : Drg) (env : Env) (p : Spec.SGraph) (hp : WFP 
   refine ⟨?_, fun n => ?_⟩
   · simp only [Spec.decisionValue, hk1, hk3]
   · have hwf := required_ctx_WF g _ (wfp_step g env p hp) d [] input k1 k3 hk1 hk3
-    simp only [Spec.decisionContext, restrict_nil, overwrite_nil]
+    simp only [Spec.decisionContext, overwrite_nil]
     rw [get_zip _ _ hwf, decisions_get g env p [] input d.reqDecisions _ k3 n hk3]
     cases Spec.decisionBinding g env p [] input n d.reqDecisions with
     | some v => rfl
@@ -283,23 +275,20 @@ def witnessF14 : Drg := {
       reqKnowledge := [], logic := .add (.name "A") (.numeric "1" "") }],
   bkms := [], services := [] }
 
-/-- Finding F14: `B` on `{}` and on `{Z: 5}` is 2; on `{A: 100}` the code gives 101 where the
-specification gives 2 — the input entry `A` replaced the value of the required decision `A`. -/
-theorem eval_decision_spec_counterexample :
+/-- The witness of the repaired finding F14: an input entry named like the required decision
+`A` no longer replaces its value — `B` is 2 on `{}`, on `{Z: 5}` and on `{A: 100}` (it was 101). -/
+example :
     evaluateInvocable witnessBase witnessF14 1 2 "B" [] = .ok (.num ⟨false, 2, 0⟩) ∧
     evaluateInvocable witnessBase witnessF14 1 2 "B" [("Z", .num ⟨false, 5, 0⟩)] = .ok (.num ⟨false, 2, 0⟩) ∧
-    evaluateInvocable witnessBase witnessF14 1 2 "B" [("A", .num ⟨false, 100, 0⟩)] = .ok (.num ⟨false, 101, 0⟩) ∧
-    Spec.evaluateInvocable witnessBase witnessF14 1 2 "B" [("A", .num ⟨false, 100, 0⟩)] = .ok (.num ⟨false, 2, 0⟩) ∧
-    witnessF14.noBkmRequiresService = true ∧ witnessF14.inputNamesSeparate = true ∧
-    witnessF14.inputsDisjointFromDecisionNames [("A", .num ⟨false, 100, 0⟩)] = false := by
-  refine ⟨?_, ?_, ?_, ?_, by decide, by decide, by decide⟩
+    evaluateInvocable witnessBase witnessF14 1 2 "B" [("A", .num ⟨false, 100, 0⟩)] = .ok (.num ⟨false, 2, 0⟩) := by
+  refine ⟨?_, ?_, ?_⟩
   all_goals
-    simp [evaluateInvocable, Spec.evaluateInvocable, invocable, witnessF14, findLast?, evalDecision,
-      Spec.evalDecision, level, Spec.level, graphAt, Spec.graphAt, graphStep, Spec.graphStep, findDecision,
-      findBkm, findService, decisionClosure, Spec.decisionClosure, foldCtx, callDecision, Spec.callDecision,
-      callBkm, Spec.callBkm, dropName, serviceFns, typedInputs, Ctx.overwrite, Ctx.zip, Ctx.set, Ctx.get,
-      Spec.restrict, namedResult, VarTy.ftype, coerced_any, evalBoxed, Eval.evalStep, EvalM.bind_def,
-      EvalM.pure_def, Spec.decisionValue, Spec.decisionContext, Spec.store, Spec.coerceResult]
+    simp [evaluateInvocable, invocable, witnessF14, findLast?, evalDecision,
+      level, graphAt, graphStep, findDecision,
+      findBkm, findService, decisionClosure, foldCtx, callDecision,
+      callBkm, dropName, serviceFns, typedInputs, Ctx.overwrite, Ctx.zip, Ctx.set, Ctx.get,
+      namedResult, VarTy.ftype, coerced_any, evalBoxed, Eval.evalStep, EvalM.bind_def,
+      EvalM.pure_def]
     try rfl
 
 /-- input `x`; decision `A = x + 1`; decision service `S` (input data `x`, output decision `A`);
@@ -322,31 +311,15 @@ def entryOf (o : Outcome Ctx) (k : String) : Option Value :=
   | .ok c => Ctx.get c k
   | _ => none
 
-/-- Finding F28: the knowledge model `F` requires the decision service `S`.  On the input data
-`{x: 1}` the code binds `S` to the number 2 — the value of the service on the *caller's* input
-data — where the specification binds `S` to the function of the parameter `x`; `S(p)` in the
-body of `F` is therefore null in the code. -/
-theorem bkm_requires_service_counterexample :
+/-- The witness of the repaired finding F28: the knowledge model `F` requires the decision
+service `S`; its closure binds `S` to the function of the parameter `x` (it was the number 2,
+the value of the service on the caller's input data `{x: 1}`). -/
+example :
     entryOf ((graphAt witnessF28 witnessBase divergeGraph 2).bkm "_f" [("x", .num ⟨false, 1, 0⟩)] []) "S" =
-      some (.num ⟨false, 2, 0⟩) ∧
-    entryOf ((Spec.graphAt witnessF28 witnessBase Spec.divergeGraph 2).bkm "_f" []) "S" =
-      some (.fn [("x", .number)] (Boxed.service "_s") .any) ∧
-    witnessF28.noBkmRequiresService = false := by
-  refine ⟨?_, ?_, by decide⟩
-  · simp [entryOf, witnessF28, findLast?, graphAt, graphStep, findDecision,
-      findBkm, findService, findInput, decisionClosure, foldCtx, callDecision, callService,
-      callBkm, dropName, serviceFns, typedInputs, Ctx.overwrite, Ctx.zip, Ctx.set, Ctx.get,
-      VarTy.ftype, VarTy.check, SimpleTy.accepts, coerced_any, evalBoxed, Eval.evalStep, EvalM.bind_def,
-      EvalM.pure_def, bkmClosure, bkmRequirement,
-      serviceClosure, serviceInputs, inputDecisionVars, outputLoop, serviceResult]
-    try rfl
-  · simp [entryOf, witnessF28, findLast?, Spec.graphAt, Spec.graphStep, findDecision,
-      findBkm, findService, findInput, foldCtx, Spec.callBkm, serviceFns, serviceFn, serviceParams, Ctx.set, Ctx.get,
-      VarTy.ftype, SimpleTy.ftype, Spec.bkmClosure, Spec.bkmRequirement, Boxed.service]
-
-/-- Non-vacuity of the hypotheses of `eval_invocable_spec_partial`. -/
-example : witnessF14.noBkmRequiresService = true ∧ witnessF14.inputNamesSeparate = true ∧
-    witnessF14.inputsDisjointFromDecisionNames [("Z", .num ⟨false, 5, 0⟩)] = true := by decide
+      some (.fn [("x", .number)] (Boxed.service "_s") .any) := by
+  simp [entryOf, witnessF28, findLast?, graphAt, graphStep, findDecision,
+    findBkm, findService, findInput, foldCtx, callBkm, serviceFns, serviceFn, serviceParams, Ctx.set, Ctx.get,
+    VarTy.ftype, SimpleTy.ftype, bkmClosure, bkmRequirement, Boxed.service]
 
 /-! ## A decision service returns its output decisions' values -/
 
@@ -358,11 +331,11 @@ variables as keys, each with the value its decision produced. -/
 theorem service_outputs (g : Drg) (env : Env) (prev : Graph) (ha : AnswersVar g prev) (id : String) (s : Service)
     (input out results c1 : Ctx) (names : List String) (c2 : Ctx)
     (hf : g.findService id = some s)
-    (h1 : foldCtx (fun id c => dropName (callDecision g prev id input c)) s.inputDecisions [] = .ok results)
-    (h2 : foldCtx (fun id c => dropName (callDecision g prev id (g.serviceInputs s results input) c))
-      s.encapsulated [] = .ok c1)
-    (h3 : outputLoop (fun id c => callDecision g prev id (g.serviceInputs s results input) c)
-      s.output [] c1 = .ok (names, c2)) :
+    (h1 : foldCtx (fun id c => dropName (callDecision g prev id input [] c)) s.inputDecisions [] = .ok results)
+    (h2 : foldCtx (fun id c => dropName (callDecision g prev id (g.serviceInputs s results input)
+      (g.serviceInputDecisions s results input) c)) s.encapsulated [] = .ok c1)
+    (h3 : outputLoop (fun id c => callDecision g prev id (g.serviceInputs s results input)
+      (g.serviceInputDecisions s results input) c) s.output [] c1 = .ok (names, c2)) :
     (graphStep g env prev).service id input out =
         .ok (some s.var, serviceResult s.ty.ftype names c2 s.var out) ∧
     names = g.decisionVarNames s.output ∧
@@ -373,7 +346,7 @@ theorem service_outputs (g : Drg) (env : Env) (prev : Graph) (ha : AnswersVar g 
       Ctx.get (serviceResult s.ty.ftype names c2 s.var out) s.var =
           some (Value.coerced s.ty.ftype (.ctx (outputCtx names c2))) ∧
       ∀ n, Ctx.get (outputCtx names c2) n = if n ∈ names then Ctx.get c2 n else none) := by
-  obtain ⟨hn, hsome⟩ := outputLoop_spec ha _ s.output [] c1 names c2 (fun _ h => by simp at h) h3
+  obtain ⟨hn, hsome⟩ := outputLoop_spec ha _ _ s.output [] c1 names c2 (fun _ h => by simp at h) h3
   refine ⟨?_, by simpa using hn, hsome, ?_, ?_⟩
   · simp only [graphStep, hf, serviceClosure, h1, h2, h3]
   · intro n v hnames hv
@@ -441,5 +414,79 @@ example :
     Drg.acyclic { inputs := [], decisions := [dec "l" [], dec "r" [], dec "t" ["l", "r"]], bkms := [], services := [] } = true ∧
     Drg.acyclic { inputs := [], decisions := [dec "a" ["b"], dec "b" ["a"]], bkms := [], services := [] } = false := by
   decide
+
+/-! ## `ModelEvaluator::new` refuses requirement cycles (`check_requirements`)
+
+`Drg.checkRequirements` mirrors `check_requirements` (`model_evaluator.rs:54-98`): one map from
+identifiers to requirements — decision → required decisions and required knowledge, knowledge
+model → required knowledge, decision service → input, encapsulated and output decisions — and
+no chain of requirements longer than the number of keys.  It differs from `Drg.acyclic` only in
+how identifiers are resolved: the map is keyed by the identifier alone, so (a) elements of
+different kinds or several elements of one kind that share an identifier are merged, and (b) a
+requirement is followed to whatever element has the identifier (a `requiredKnowledge` that
+names a decision counts), whereas the registries of closures — and `rankedBy` / `acyclic` —
+look an identifier up per kind and keep the last element.  For documents with unique
+identifiers and well-kinded references the edge sets coincide.  The direction that matters holds
+without any such assumption: -/
+
+/-- A graph that `ModelEvaluator::new` accepts has a topological numbering (the longest chain of
+requirements below an identifier) bounded by its number of elements. -/
+theorem built_graph_ranked (g : Drg) (h : g.checkRequirements = true) :
+    g.rankedBy (fun _ id => chainDepth g g.requirementCount id) = true ∧
+    ∀ (k : Kind) id, (fun (_ : Kind) id => chainDepth g g.requirementCount id) k id ≤ g.size :=
+  ⟨ranked_of_check g h, fun _ id => Nat.le_trans (chainDepth_le g _ id) (requirementCount_le g)⟩
+
+/-- Hence for a graph that builds, graph fuel = number of elements suffices: the recursion over
+requirement edges never runs out (what is left of `diverge` is the nesting of function-body
+evaluations — recursion through names, which no check of the requirement graph sees). -/
+theorem built_graph_fuel_suffices (base : Env) (g : Drg) (h : g.checkRequirements = true) (ff gf gf' : Nat)
+    (hg : g.size ≤ gf) (hg' : g.size ≤ gf') (name : String) (input : Ctx) :
+    evaluateInvocable base g ff gf name input = evaluateInvocable base g ff gf' name input :=
+  acyclic_fuel_suffices_ranked base g _ (built_graph_ranked g h).1 g.size (built_graph_ranked g h).2
+    ff gf gf' hg hg' name input
+
+/-- Conversely the check rejects only cycles: it accepts every graph whose map has a numbering,
+below the number of keys, that decreases along every requirement to a key. -/
+theorem check_requirements_complete (g : Drg) (rk : String → Nat)
+    (hr : ∀ id req, g.requirementsOf id = some req → ∀ c ∈ req, (g.requirementsOf c).isSome = true → rk c < rk id)
+    (hb : ∀ id, rk id < g.requirementCount) : g.checkRequirements = true :=
+  check_of_ranked g rk hr hb
+
+/-- Non-vacuity: the diamond builds, two decisions requiring each other (and a decision service
+whose output decision requires it through a knowledge requirement) do not. -/
+example :
+    let dec (id : String) (rd rk : List String) : Decision :=
+      { id := id, name := id, var := id, ty := .untyped, reqInputs := [], reqDecisions := rd,
+        reqKnowledge := rk, logic := .null }
+    Drg.checkRequirements { inputs := [], decisions := [dec "l" [] [], dec "r" [] [], dec "t" ["l", "r"] []], bkms := [], services := [] } = true ∧
+    Drg.checkRequirements { inputs := [], decisions := [dec "a" ["b"] [], dec "b" ["a"] []], bkms := [], services := [] } = false ∧
+    let svc : Service :=
+      { id := "s", name := "s", var := "s", ty := .untyped, inputData := [], inputDecisions := [],
+        encapsulated := [], output := ["a"] }
+    Drg.checkRequirements { inputs := [], decisions := [dec "a" [] ["s"]], bkms := [], services := [svc] } = false := by
+  decide
+
+/-- **Completeness of `acyclic`**: the decidable predicate accepts every graph with unique ids
+that has *some* topological numbering with values below its number of elements (for instance
+the positions of its elements in a topological order) — the longest-path numbering computed in
+`size g` rounds is then a topological numbering too.  Together with `acyclic_fuel_suffices`:
+`acyclic` is neither vacuous nor stricter than "has a topological order". -/
+theorem acyclic_complete (g : Drg) (rk : Kind → String → Nat) (hr : g.rankedBy rk = true)
+    (hb : ∀ k id, rk k id < g.size) (hu : g.idsUnique = true) : g.acyclic = true :=
+  acyclic_of_ranked hr hb hu
+
+/-- Non-vacuity: the diamond with the numbering l ↦ 0, r ↦ 1, t ↦ 2. -/
+example :
+    let dec (id : String) (rd : List String) : Decision :=
+      { id := id, name := id, var := id, ty := .untyped, reqInputs := [], reqDecisions := rd,
+        reqKnowledge := [], logic := .null }
+    let g : Drg := { inputs := [], decisions := [dec "l" [], dec "r" [], dec "t" ["l", "r"]], bkms := [], services := [] }
+    let rk : Kind → String → Nat := fun _ id => if id = "t" then 2 else if id = "r" then 1 else 0
+    g.rankedBy rk = true ∧ g.idsUnique = true ∧ g.size = 3 ∧ ∀ k id, rk k id < 3 := by
+  refine ⟨by decide, by decide, by decide, fun k id => ?_⟩
+  simp only []
+  split
+  · omega
+  · split <;> omega
 
 end Dmn.Drg
